@@ -102,3 +102,17 @@ RD = {
 }
 for _pid, _extra in RD.items():
     CLAIMS[_pid]["technique"] += "; " + _extra
+
+# round 15
+RF = {
+ "C02": "vector-fast-path rule of the flat iterator; pool-reset completeness",
+ "C03": "raw-copy census; last-axis exhaustion of the column-major stepper",
+ "C09": "stride-read rule on Trace",
+ "C10": "materialisability truth table; per-operand iterator rule under branches",
+ "C13": "pool-reset completeness incl. path clause",
+ "C15": "cleared-mask rule on makeMask",
+ "C16": "pool-reset completeness (order flag)",
+ "C19": "cleared-together rule of the lazy-transpose pair; pool-reset path clause",
+}
+for _pid, _extra in RF.items():
+    CLAIMS[_pid]["technique"] += "; " + _extra
